@@ -1070,3 +1070,264 @@ func ruleIndexMade(c *Ctx) []Obligation {
 	}
 	return obs
 }
+
+func init() {
+	register(&Rule{Name: "RANGE.SKIP", Props: []string{"C10"}, Floor: 1,
+		Doc: "the subset test passes over a part of the parent set only when that part lies strictly below the part being placed (parent.Max < child.Min)",
+		Run: ruleRangeSkip})
+	register(&Rule{Name: "FIND.DOTS", Props: []string{"C17"}, Floor: 2,
+		Doc: "the `.` and `..` steps of a path are decided before any arm that depends on the kind of the current node",
+		Run: ruleFindDots})
+	register(&Rule{Name: "INDENT.CLAMP", Props: []string{"C20"}, Floor: 1,
+		Doc: "the short-write accounting adds the whole length of a part to the count only under a dominating test that the bytes still unaccounted for exceed it",
+		Run: ruleIndentClamp})
+}
+
+func ruleRangeSkip(c *Ctx) []Obligation {
+	const R = "RANGE.SKIP"
+	fn := c.Fn("yang.(YangRange).Contains")
+	if fn == nil {
+		return []Obligation{undecided(R, "subset test", "-", "(YangRange).Contains not found")}
+	}
+	yr := c.MustNamed("yang", "YRange")
+	fMin, fMax := FieldVar(yr, "Min"), FieldVar(yr, "Max")
+	// which side does a Min/Max load belong to: the receiver's parts (indexed) or the argument's (the range element)
+	side := func(v ssa.Value) (string, *types.Var) {
+		_, f, base := loadedField(v)
+		if f != fMin && f != fMax {
+			return "", nil
+		}
+		root := resolveArg(rootOf(base))
+		if isParamN(fn, root, 0) {
+			return "parent", f
+		}
+		if len(fn.Params) > 1 && (isParamN(fn, root, 1) || derivesFrom(base, func(x ssa.Value) bool { return isParamN(fn, x, 1) })) {
+			return "child", f
+		}
+		if derivesFrom(base, func(x ssa.Value) bool { return isParamN(fn, x, 0) }) {
+			return "parent", f
+		}
+		return "", nil
+	}
+	var obs []Obligation
+	n := 0
+	for _, h := range fn.Blocks {
+		if !isLoopHeader(h) {
+			continue
+		}
+		ifi, isIf := h.Instrs[len(h.Instrs)-1].(*ssa.If)
+		if !isIf {
+			continue
+		}
+		cond, stay := stripNot(ifi.Cond, true)
+		// stay: the polarity of `cond` on the edge Succs[0]; which successor stays in the loop?
+		inLoop := func(b *ssa.BasicBlock) bool { return h.Dominates(b) && blockReaches(b, h, nil) }
+		if !inLoop(h.Succs[0]) && inLoop(h.Succs[1]) {
+			stay = !stay
+		} else if !inLoop(h.Succs[0]) {
+			continue
+		}
+		call, isC := cond.(*ssa.Call)
+		if !isC || call.Call.StaticCallee() == nil || baseName(call.Call.StaticCallee()) != "Less" || len(call.Call.Args) != 2 {
+			continue
+		}
+		sa, fa := side(call.Call.Args[0])
+		sb, fb := side(call.Call.Args[1])
+		if sa == "" || sb == "" || sa == sb {
+			continue
+		}
+		n++
+		con := fmt.Sprintf("Contains: loop #%d passes over a parent part only when it lies strictly below the child part", n)
+		switch {
+		case stay && sa == "parent" && fa == fMax && sb == "child" && fb == fMin:
+			obs = append(obs, ok(R, con, c.InstrPos(ifi), "while parent.Max < child.Min"))
+		case !stay && sa == "child" && fa == fMin && sb == "parent" && fb == fMax:
+			obs = append(obs, bad(R, con, c.InstrPos(ifi), "the loop goes on while !(child.Min < parent.Max), i.e. while parent.Max <= child.Min: a parent part whose top is exactly where the child part starts is passed over although it covers that value, and a restriction that only narrows is refused (or placed against the wrong part)"))
+		default:
+			obs = append(obs, bad(R, con, c.InstrPos(ifi), fmt.Sprintf("the loop goes on under a comparison of %s.%s with %s.%s (polarity %v) that is not `parent.Max < child.Min`", sa, fa.Name(), sb, fb.Name(), stay)))
+		}
+	}
+	if n == 0 {
+		o := ok(R, "Contains: no loop that advances over parent parts by a Less test", c.Pos(fn.Pos()), "another shape; not decided")
+		o.Trivial = true
+		obs = append(obs, o)
+	}
+	return obs
+}
+
+func ruleFindDots(c *Ctx) []Obligation {
+	const R = "FIND.DOTS"
+	fn := c.Fn("yang.(*Entry).Find")
+	if fn == nil {
+		return []Obligation{undecided(R, "path lookup", "-", "(*Entry).Find not found")}
+	}
+	m := c.entryModel()
+	var obs []Obligation
+	for _, dots := range []string{".", ".."} {
+		con := fmt.Sprintf("Find: the %q step does not depend on the kind of the node it is taken from", dots)
+		// the tests `part == dots` inside the per-step loop; what holds where the test is made holds in its arm
+		var arms []*ssa.BasicBlock
+		for _, p := range fn.Blocks {
+			if loopHeaderOf(p) == nil {
+				continue
+			}
+			ifi, isIf := p.Instrs[len(p.Instrs)-1].(*ssa.If)
+			if !isIf {
+				continue
+			}
+			bo, isB := ifi.Cond.(*ssa.BinOp)
+			if !isB || bo.Op != token.EQL {
+				continue
+			}
+			if s, isS := constString(bo.Y); isS && s == dots {
+				arms = append(arms, p)
+			}
+		}
+		if len(arms) == 0 {
+			obs = append(obs, undecided(R, con, c.Pos(fn.Pos()), "no arm of the per-step loop is entered on part == "+fmt.Sprintf("%q", dots)))
+			continue
+		}
+		// the outermost such arm (the one in the main switch, not the `.` / `..` cases after the prefix was cut off)
+		bad2 := ""
+		free := false
+		for _, b := range arms {
+			kindDep := ""
+			for _, g := range guardsAt(b) {
+				x, _, okn := nilTest(g.Cond)
+				if !okn {
+					continue
+				}
+				if _, f, _ := loadedField(x); f == m.fRPC || f == m.fDir {
+					kindDep = c.InstrPos(g.If)
+				}
+			}
+			if kindDep == "" {
+				free = true
+			} else {
+				bad2 = kindDep
+			}
+		}
+		if free {
+			obs = append(obs, ok(R, con, c.InstrPos(arms[0].Instrs[len(arms[0].Instrs)-1]), "an arm for it is reached without a test of RPC / Dir of the current node"))
+		} else {
+			obs = append(obs, bad(R, con, c.InstrPos(arms[0].Instrs[len(arms[0].Instrs)-1]), "every arm for this step sits behind a test of the node's kind ("+bad2+"): taken from an rpc / action node the step falls into the operation arm and the lookup answers nil"))
+		}
+	}
+	return obs
+}
+
+func ruleIndentClamp(c *Ctx) []Obligation {
+	const R = "INDENT.CLAMP"
+	m, why := c.indentModel()
+	if m == nil {
+		return []Obligation{undecided(R, "indent writer model", "-", why)}
+	}
+	// the accounting function: the repo callee whose result Write returns together with a non-nil error
+	var acct *ssa.Function
+	eachInstr(m.write, func(in ssa.Instruction) {
+		r, isR := in.(*ssa.Return)
+		if !isR || len(r.Results) != 2 || isNilConst(r.Results[1]) {
+			return
+		}
+		if call, isC := resolveSpill(r.Results[0], r).(*ssa.Call); isC && call.Call.StaticCallee() != nil && c.isRepoFn(call.Call.StaticCallee()) {
+			acct = call.Call.StaticCallee()
+		}
+	})
+	if acct == nil {
+		o := ok(R, "short-write accounting", c.Pos(m.write.Pos()), "Write does not delegate the count of a failed write to a helper; INDENT.RET decides the return")
+		o.Trivial = true
+		return []Obligation{o}
+	}
+	fromBudget := func(v ssa.Value) bool {
+		found := false
+		var walk func(x ssa.Value, d int)
+		seen := map[ssa.Value]bool{}
+		walk = func(x ssa.Value, d int) {
+			if d > 12 || seen[x] || found {
+				return
+			}
+			seen[x] = true
+			switch y := x.(type) {
+			case *ssa.Parameter:
+				if isIntType(y.Type()) {
+					found = true
+				}
+			case *ssa.Phi:
+				for _, e := range y.Edges {
+					walk(e, d+1)
+				}
+			case *ssa.BinOp:
+				walk(y.X, d+1)
+			}
+		}
+		walk(v, 0)
+		return found
+	}
+	var obs []Obligation
+	n := 0
+	check := func(ln *ssa.Call, at *ssa.BasicBlock, pos string) {
+		n++
+		con := fmt.Sprintf("%s: whole-part addition #%d is covered by the bytes still unaccounted for", c.FnName(acct), n)
+		covered := false
+		for _, g := range guardsAt(at) {
+			bo, isB := g.Cond.(*ssa.BinOp)
+			if !isB {
+				continue
+			}
+			x, y, op := bo.X, bo.Y, bo.Op
+			isLen := func(v ssa.Value) bool { return v == ssa.Value(ln) || sameExpr(v, ln) }
+			if isLen(x) && fromBudget(y) {
+				x, y = y, x
+				op = map[token.Token]token.Token{token.LSS: token.GTR, token.GTR: token.LSS, token.LEQ: token.GEQ, token.GEQ: token.LEQ}[op]
+			}
+			if !fromBudget(x) || !isLen(y) {
+				continue
+			}
+			if !g.Branch {
+				op = map[token.Token]token.Token{token.LSS: token.GEQ, token.GTR: token.LEQ, token.LEQ: token.GTR, token.GEQ: token.LSS}[op]
+			}
+			if op == token.GTR || op == token.GEQ {
+				covered = true
+			}
+		}
+		if covered {
+			obs = append(obs, ok(R, con, pos, "under `remaining > len(part)`"))
+		} else {
+			obs = append(obs, bad(R, con, pos, "the whole length of a part enters the count without a dominating comparison with what the underlying writer is still known to have taken: when the write stopped inside that part the count exceeds what was written, and the caller skips bytes that never went out"))
+		}
+	}
+	seenV := map[ssa.Value]bool{}
+	var walk func(v ssa.Value, at *ssa.BasicBlock)
+	walk = func(v ssa.Value, at *ssa.BasicBlock) {
+		if seenV[v] {
+			return
+		}
+		seenV[v] = true
+		switch x := v.(type) {
+		case *ssa.Phi:
+			for i, e := range x.Edges {
+				walk(e, x.Block().Preds[i])
+			}
+		case *ssa.BinOp:
+			if x.Op == token.ADD {
+				walk(x.X, x.Block())
+				walk(x.Y, x.Block())
+			}
+		case *ssa.Call:
+			if isLenOf(x) {
+				check(x, at, c.InstrPos(x))
+			}
+		}
+	}
+	for _, b := range acct.Blocks {
+		if r, isR := b.Instrs[len(b.Instrs)-1].(*ssa.Return); isR && len(r.Results) == 1 {
+			walk(r.Results[0], b)
+		}
+	}
+	if n == 0 {
+		o := ok(R, c.FnName(acct)+": no whole-part addition", c.Pos(acct.Pos()), "the count is not built from part lengths; not decided here")
+		o.Trivial = true
+		obs = append(obs, o)
+	}
+	return obs
+}
